@@ -46,10 +46,78 @@ def cases(tier, rng):
                 out.append((mk(p, a, b), "pair")); out.append((mk(p, b, a), "pair-swapped"))
             if rng.random() < frac * 0.3 and not needs_occurs_check(p, shift(a), b):
                 out.append((mk(p, shift(a), b), "head-goal")); out.append((mk(p, b, shift(a)), "goal-head"))
+    out += big_cases(tier, rng)
     seen, res = set(), []
     for c in out:
         if c[0] not in seen: seen.add(c[0]); res.append(c)
     return res
+
+# ---- beyond the small universe: deep terms (depth <= 5), long lists (<= 12 elements, with and without tail variable), wide complex
+#      terms (<= 7 arguments), long and non-ASCII atoms, integers beyond 2^53 and at the i64 limits, floats with many digits, variable
+#      ids up to 46; each term against an instance, a generalisation (sub-terms replaced by variables), a copy with one leaf changed,
+#      and an unrelated term ----
+BIG_CONSTS = [atom("a"), atom("b"), atom("a_rather_long_atom_of_more_than_thirty_two_characters"), atom("Zo\u00eb \u65e5\u672c"), integer(0), integer(7),
+              integer(2**31), integer(2**53 + 1), integer(-2**63), integer(2**63 - 1), flt(0.1), flt(-0.0), flt(1e300), flt(123456.789012345),
+              flt(float(2**53)), EMPTY]
+def _bvar(i): return var(i, "$V%d" % i)
+def big_term(rng, ids, depth):
+    k = rng.random()
+    if depth <= 0 or k < 0.22: return rng.choice(BIG_CONSTS) if (rng.random() < 0.6 or not ids) else _bvar(rng.choice(ids))
+    if k < 0.3: return ANON
+    if k < 0.62:
+        n = rng.choice([1, 2, 3, 5, 7])
+        return cplx(rng.choice(["f", "g", "node"]), *[big_term(rng, ids, depth - 1 - (n > 3)) for _ in range(n)])
+    n = rng.choice([1, 2, 4, 6, 9, 12])
+    es = [big_term(rng, ids, depth - 1 - (n > 3)) for _ in range(n)]
+    tl = rng.random()
+    return lst(es, _bvar(rng.choice(ids)) if (tl < 0.3 and ids) else (ANON if tl < 0.36 else None))
+def _paths(x, path, acc):
+    """positions of proper sub-terms (arguments and list elements) in a parsed term"""
+    if isinstance(x, list) and x:
+        if x[0] == "c":
+            for i in range(2, len(x)): acc.append(path + [i]); _paths(x[i], path + [i], acc)
+        elif x[0] == "l" and x[1] != "nil":
+            if x[4] != "1": acc.append(path + [1]); _paths(x[1], path + [1], acc)
+            _paths(x[2], path + [2], acc)
+    return acc
+def _replace(x, path, new):
+    import copy
+    y = copy.deepcopy(x); cur = y
+    for i in path[:-1]: cur = cur[i]
+    cur[path[-1]] = new
+    return y
+def big_cases(tier, rng):
+    out = []
+    n = 160 if tier == "quick" else 4000
+    for k in range(n):
+        base = rng.choice([0, 0, 20, 40])
+        ids = [base + i for i in range(1, 7)]
+        t = big_term(rng, ids, rng.choice([3, 4, 5]))
+        pt = parse(t)
+        paths = _paths(pt, [], [])
+        partners = [big_term(rng, ids, 3)]
+        if paths:
+            # a generalisation: up to three sub-terms replaced by (possibly repeated) variables
+            g = pt
+            done = []
+            for pa in rng.sample(paths, min(len(paths), rng.randint(1, 3))):
+                if any(pa[:len(d)] == d or d[:len(pa)] == pa for d in done): continue   # not inside one another
+                g = _replace(g, pa, parse(_bvar(rng.choice(ids)))); done.append(pa)
+            partners.append(obs.to_text(g))
+            # one leaf changed
+            pa = rng.choice(paths)
+            partners.append(obs.to_text(_replace(pt, pa, parse(rng.choice(BIG_CONSTS)))))
+        # an instance: every variable replaced by a term without variables of its own
+        inst = t
+        for i in ids:
+            if _bvar(i) in inst: inst = inst.replace(_bvar(i), big_term(rng, [], 2))
+        partners.append(inst)
+        prior = rng.choice([[], [], [(_bvar(ids[0]), _bvar(ids[1]))], [(_bvar(ids[2]), atom("a"))], [(_bvar(ids[1]), lst([_bvar(ids[3]), atom("b")], _bvar(ids[4])))]])
+        for b in partners:
+            if needs_occurs_check(prior, t, b): continue
+            out.append((mk_prior(prior), "prior"))
+            out.append((mk(prior, t, b), "big")); out.append((mk(prior, b, t), "big-swapped"))
+    return out
 
 RULE = ("ordered pairs of the 119-term universe (atoms, integers, floats, three variables, $_, f/1, g/2, lists of length 0-3 with "
         "and without tail variable incl. $_ tails, nested and empty lists) under 18 prior substitutions built by earlier "
@@ -112,7 +180,7 @@ def relations(cases, impl):
                                 why = "the result is not a most general unifier: resolved variables %s, reference %s" % (refunify.canon(iv), refunify.canon(rv))
                     except refunify.Bad:
                         pass
-        if why is None and tag in ("pair-swapped", "goal-head"):
+        if why is None and tag in ("pair-swapped", "goal-head", "big-swapped"):
             # C07: the other order, when it is among the cases
             other = mk([(obs.to_text(p), obs.to_text(q)) for p, q in prior], obs.to_text(b), obs.to_text(a))
             ores = res_of.get(other)
